@@ -70,6 +70,18 @@ CHECKS["C05"] = {
     "text": U + " for 1 session x 10 carrier schedules (cut at every byte class + reconnect, overlapping carriers, idle gaps 30/59/61/95 s with a packet written during the gap) and for 2-3 concurrent sessions; oracle: every packet from ReadFrom was framed on a carrier that presented that ClientID (byte-identical, exactly once, none lost), downstream packets leave only through carriers of their session in FIFO order and survive gaps below the retention time, carrier handlers and their goroutines end, the address looked up at accept time is that of the most recent carrier of that ClientID and never another session's.",
     "design_ref": "§3 C05", "note": SCHED_NOTE + " Tier 1 only: the token check and one-Accept-per-session live in ServeHTTP / KCP+smux (third-party stacks) and are not covered; KCP is replaced by a stand-in.",
 }
+CHECKS["C06"] = {
+    "script": "c06.py", "category": "model_checking",
+    "technique": "exhaustive enumeration of pattern pairs x hostnames (matcher law) + exhaustive exploration of the real broker rejection path and of the real proxy runSession/datachannelHandler over a relay-URL grammar under the controlled scheduler",
+    "text": "(i) all 15.3 M ordered pairs of patterns <=5 over {^,$,a,b,.} x 364 hostnames: IsSupersetOf implies member inclusion; (ii) broker: allowed (10) x proxy pattern (10) x present/absent x presumed (4/10): 'incorrect relay pattern' iff not a superset by an independent reference, never registered, next client refused; (iii) proxy: relay URLs from a grammar (schemes, userinfo, lookalike hosts, IPv6, trailing dot, case, ports, fragments) x 3 patterns x AllowNonTLSRelay: every dialled host satisfies the proxy's matcher, wss unless allowed, slot released.",
+    "design_ref": "§3 C06", "note": SCHED_NOTE + " (iii) uses the C16 seams; the dial is observed at websocket.DefaultDialer.NetDial.",
+}
+CHECKS["C16"] = {
+    "script": "c16.py", "category": "model_checking",
+    "technique": "stateless model checking (DPOR + sleep sets, virtual time) of the real tokens_t/runSession/datachannelHandler with a scripted broker and two build-time seams for the pion-facing functions, explicit enumeration of session-outcome sequences",
+    "text": U + " for capacity in {1,2,3} x all sequences of <=3 (4) session outcomes over 10 exit paths incl. the data channel opening in the instant of the 20 s timeout, sessions overlapping; oracle: slots in use <= capacity, every reported Clients value a multiple of 8 and <= slots in use, after the sequence count()==0 with an empty token channel, nobody blocked in a token operation, the proxy keeps polling.",
+    "design_ref": "§3 C16", "note": SCHED_NOTE + " Seams: makePeerConnectionFromOffer (real unconnected PeerConnection + scripted OnDataChannel contract) and copyLoop; Start()'s polling loop is copied verbatim; not yet bound to real pion by a tier-2 run.",
+}
 CHECKS["C07"] = {
     "script": "c07.py", "category": "exploration", "engine": "enum",
     "technique": "bounded-exhaustive enumeration of address spellings (filtered by Go's own parsers) x delimiter contexts x joiners x write splits on the real scrubber, with a parse-based oracle",
